@@ -1262,10 +1262,10 @@ def laurent(ctx, z, C, m, reverse=False, scheme=None):
     elif -m < len(C):
         rz = ctx.reciprocal(z)
         if reverse:
-            N = [ctx.constant(0, z)] + C[m:]
+            N = [0] + C[m:]
             P = C[:m]
         else:
-            N = C[:-m] + [ctx.constant(0, z)]
+            N = C[:-m] + [0]
             P = C[-m:]
         return fast_polynomial(ctx, rz, N, reverse=not reverse, scheme=scheme) + fast_polynomial(
             ctx, z, P, reverse=reverse, scheme=scheme
